@@ -1132,8 +1132,12 @@ func mPoolGet(fr *frame, args []value) (value, bool) {
 		cur.pools = map[*value][]value{}
 	}
 	if l := cur.pools[p]; len(l) > 0 {
+		// Put(x) synchronizes before the Get that returns x (Go memory
+		// model): both are logged as critical sections on the pool
+		cur.sched.logLock(evLock, p)
 		v := l[len(l)-1]
 		cur.pools[p] = l[:len(l)-1]
+		cur.sched.logLock(evUnlock, p)
 		return v, true
 	}
 	st := (*p).(structure)
@@ -1157,7 +1161,9 @@ func mPoolPut(fr *frame, args []value) (value, bool) {
 	if x, ok := args[1].(iface); ok && x.t == nil {
 		return nil, true
 	}
+	cur.sched.logLock(evLock, p)
 	cur.pools[p] = append(cur.pools[p], args[1])
+	cur.sched.logLock(evUnlock, p)
 	return nil, true
 }
 
